@@ -87,7 +87,7 @@ def grammar_line(rng, exact_len=None):
 
 
 def corrupt(rng, line: str) -> bytes:
-    k = rng.choice(["scheme", "scheme2", "nohost", "userinfo", "userinfo2", "fragment", "utf8", "long", "noslash", "nocolon", "space", "tab", "titan", "port"])
+    k = rng.choice(["scheme", "scheme2", "nohost", "userinfo", "userinfo2", "fragment", "utf8", "long", "longmb", "longmb", "titancase", "noslash", "nocolon", "space", "tab", "titan", "port"])
     b = line.encode()
     if k == "scheme":
         return rng.choice([b"http", b"https", b"gopher", b"titan", b"gemini+x", b"gemin", b"geminii", b"file"]) + b[6:]
@@ -107,6 +107,19 @@ def corrupt(rng, line: str) -> bytes:
     if k == "long":
         n = rng.choice([1021, 1022, 1023, 1024, 1025, 1030, 2000])
         return (b + b"/" + b"a" * 3000)[:n]
+    if k == "longmb":
+        # few characters, many bytes: multi-byte UTF-8 padding around the 1022-byte limit (gemini and titan)
+        ch = rng.choice(["\u00e9", "\u20ac", "\U0001f600"])
+        nbytes = rng.choice([1018, 1020, 1021, 1022, 1023, 1024, 1026, 1030, 1500])
+        base = rng.choice([b"gemini://h/", b"titan://h/"])
+        tail = b";size=3" if base.startswith(b"titan") else b""
+        pad = ""
+        while len(base) + len((pad + ch).encode()) + len(tail) <= nbytes:
+            pad += ch
+        filler = b"a" * (nbytes - len(base) - len(pad.encode()) - len(tail))
+        return base + pad.encode() + filler + tail
+    if k == "titancase":
+        return rng.choice([b"Titan", b"TITAN", b"tItAn", b"titaN"]) + b[6:] + rng.choice([b"", b";size=0", b";size=3", b";size=3;mime=text/plain"])
     if k == "noslash":
         return b"gemini:" + b[9:]
     if k == "nocolon":
